@@ -84,13 +84,19 @@ func noWS(l []cv) []cv {
 // ---------------------------------------------------------------------------
 // colours
 
-type col struct{ r, g, b, a float64 } // r,g,b on the 0..255 scale, a in 0..1
+type col struct {
+	r, g, b, a float64 // r,g,b on the 0..255 scale, a in 0..1
+	any        bool    // a colour outside the sRGB gamut: the oracle does not model gamut mapping, it compares equal to anything
+}
 
 func rgbaOfHex(h uint32) col {
-	return col{float64(h >> 24), float64((h >> 16) & 255), float64((h >> 8) & 255), float64(h&255) / 255}
+	return col{r: float64(h >> 24), g: float64((h >> 16) & 255), b: float64((h >> 8) & 255), a: float64(h&255) / 255}
 }
 
 func sameColor(x, y col) bool {
+	if x.any || y.any {
+		return true
+	}
 	return math.Abs(x.r-y.r) <= 0.501 && math.Abs(x.g-y.g) <= 0.501 && math.Abs(x.b-y.b) <= 0.501 && math.Abs(x.a-y.a) <= 0.0026
 }
 
@@ -252,7 +258,7 @@ func colorOfCV(c cv) (col, bool) {
 	case tIdent:
 		name := strings.ToLower(c.t.text)
 		if name == "transparent" {
-			return col{0, 0, 0, 0}, true
+			return col{r: 0, g: 0, b: 0, a: 0}, true
 		}
 		if v, ok := namedColors[name]; ok {
 			return rgbaOfHex(v<<8 | 0xFF), true
@@ -269,13 +275,13 @@ func colorOfCV(c cv) (col, bool) {
 		}
 		switch len(d) {
 		case 3:
-			return col{float64(d[0] * 17), float64(d[1] * 17), float64(d[2] * 17), 1}, true
+			return col{r: float64(d[0] * 17), g: float64(d[1] * 17), b: float64(d[2] * 17), a: 1}, true
 		case 4:
-			return col{float64(d[0] * 17), float64(d[1] * 17), float64(d[2] * 17), float64(d[3]*17) / 255}, true
+			return col{r: float64(d[0] * 17), g: float64(d[1] * 17), b: float64(d[2] * 17), a: float64(d[3]*17) / 255}, true
 		case 6:
-			return col{float64(d[0]*16 + d[1]), float64(d[2]*16 + d[3]), float64(d[4]*16 + d[5]), 1}, true
+			return col{r: float64(d[0]*16 + d[1]), g: float64(d[2]*16 + d[3]), b: float64(d[4]*16 + d[5]), a: 1}, true
 		case 8:
-			return col{float64(d[0]*16 + d[1]), float64(d[2]*16 + d[3]), float64(d[4]*16 + d[5]), float64(d[6]*16+d[7]) / 255}, true
+			return col{r: float64(d[0]*16 + d[1]), g: float64(d[2]*16 + d[3]), b: float64(d[4]*16 + d[5]), a: float64(d[6]*16+d[7]) / 255}, true
 		}
 	case tFunction:
 		name := strings.ToLower(c.t.text)
@@ -303,7 +309,7 @@ func colorOfCV(c cv) (col, bool) {
 					return col{}, false
 				}
 			}
-			return col{ch[0], ch[1], ch[2], a}, true
+			return col{r: ch[0], g: ch[1], b: ch[2], a: a}, true
 		case "hsl", "hsla":
 			h, ok1 := hueOf(args[0])
 			s, ok2 := pctOrNum(args[1])
@@ -312,7 +318,67 @@ func colorOfCV(c cv) (col, bool) {
 				return col{}, false
 			}
 			r, g, b := hslToRGB(h, clamp(s/100, 0, 1), clamp(l/100, 0, 1))
-			return col{r * 255, g * 255, b * 255, a}, true
+			return col{r: r * 255, g: g * 255, b: b * 255, a: a}, true
+		case "lab", "lch", "oklab", "oklch":
+			// CSS Color 4, sections 9 and 10; percentage reference ranges: L 100% = 100 (1 for
+			// ok*), a/b 100% = 125 (0.4), chroma 100% = 150 (0.4)
+			ok := name == "oklab" || name == "oklch"
+			polar := name == "lch" || name == "oklch"
+			comp := func(x cv, ref float64) (float64, bool) {
+				if v, k := numOf(x); k {
+					return v, true
+				}
+				if v, k := pctOf(x); k {
+					return v * ref / 100, true
+				}
+				if x.t.kind == tIdent && strings.EqualFold(x.t.text, "none") {
+					return 0, true
+				}
+				return 0, false
+			}
+			lref, abref, cref := 100.0, 125.0, 150.0
+			if ok {
+				lref, abref, cref = 1, 0.4, 0.4
+			}
+			L, k1 := comp(args[0], lref)
+			var A, B float64
+			k2, k3 := true, true
+			if polar {
+				var C, H float64
+				C, k2 = comp(args[1], cref)
+				H, k3 = hueOf(args[2])
+				if C < 0 {
+					C = 0
+				}
+				A, B = C*math.Cos(H*math.Pi/180), C*math.Sin(H*math.Pi/180)
+			} else {
+				A, k2 = comp(args[1], abref)
+				B, k3 = comp(args[2], abref)
+			}
+			if !k1 || !k2 || !k3 {
+				return col{}, false
+			}
+			if L < 0 {
+				L = 0
+			}
+			var x, y, z float64
+			if ok {
+				if L > 1 {
+					L = 1
+				}
+				x, y, z = oklabToXYZ(L, A, B)
+			} else {
+				if L > 100 {
+					L = 100
+				}
+				x, y, z = d50ToD65(labToXYZ(L, A, B))
+			}
+			r, g, b := xyzToSRGB(x, y, z)
+			eps := 0.5 / 255
+			if r < -eps || r > 1+eps || g < -eps || g > 1+eps || b < -eps || b > 1+eps {
+				return col{a: a, any: true}, true
+			}
+			return col{r: clamp(r, 0, 1) * 255, g: clamp(g, 0, 1) * 255, b: clamp(b, 0, 1) * 255, a: a}, true
 		case "hwb":
 			h, ok1 := hueOf(args[0])
 			w, ok2 := pctOrNum(args[1])
@@ -323,11 +389,11 @@ func colorOfCV(c cv) (col, bool) {
 			w, bk = clamp(w/100, 0, 1), clamp(bk/100, 0, 1)
 			if w+bk >= 1 {
 				g := w / (w + bk)
-				return col{g * 255, g * 255, g * 255, a}, true
+				return col{r: g * 255, g: g * 255, b: g * 255, a: a}, true
 			}
 			r, g, b := hslToRGB(h, 1, 0.5)
 			f := func(x float64) float64 { return (x*(1-w-bk) + w) * 255 }
-			return col{f(r), f(g), f(b), a}, true
+			return col{r: f(r), g: f(g), b: f(b), a: a}, true
 		}
 	}
 	return col{}, false
@@ -720,6 +786,9 @@ func canonLeaf(c cv, kind pkind) string {
 }
 
 func canonColor(v col) string {
+	if v.any {
+		return "C(-1,-1,-1,-1)"
+	}
 	// quantised: bytes for rgb, alpha in 1/255 steps (tolerances are applied by sameCanon)
 	return fmt.Sprintf("C(%.4f,%.4f,%.4f,%.5f)", v.r, v.g, v.b, v.a)
 }
@@ -767,8 +836,8 @@ func sameCanon(a, b string) bool {
 	}
 	f := func(s string) float64 { v, _ := strconv.ParseFloat(s, 64); return v }
 	for i := range ma {
-		x := col{f(ma[i][1]), f(ma[i][2]), f(ma[i][3]), f(ma[i][4])}
-		y := col{f(mb[i][1]), f(mb[i][2]), f(mb[i][3]), f(mb[i][4])}
+		x := col{r: f(ma[i][1]), g: f(ma[i][2]), b: f(ma[i][3]), a: f(ma[i][4])}
+		y := col{r: f(mb[i][1]), g: f(mb[i][2]), b: f(mb[i][3]), a: f(mb[i][4])}
 		if !sameColor(x, y) {
 			return false
 		}
@@ -972,3 +1041,66 @@ func canonValue(name string, value []cv) string {
 type bigRat = big.Rat
 
 func newRat(n int64) *big.Rat { return big.NewRat(n, 1) }
+
+// ---------------------------------------------------------------------------
+// CSS Color 4 sample code (section 10.2 / 18): Lab and Oklab to XYZ, chromatic
+// adaptation, XYZ to gamma-encoded sRGB
+
+func labToXYZ(L, a, b float64) (float64, float64, float64) {
+	const k = 24389.0 / 27
+	const e = 216.0 / 24389
+	f1 := (L + 16) / 116
+	f0 := a/500 + f1
+	f2 := f1 - b/200
+	var x, y, z float64
+	if f0*f0*f0 > e {
+		x = f0 * f0 * f0
+	} else {
+		x = (116*f0 - 16) / k
+	}
+	if L > k*e {
+		y = math.Pow((L+16)/116, 3)
+	} else {
+		y = L / k
+	}
+	if f2*f2*f2 > e {
+		z = f2 * f2 * f2
+	} else {
+		z = (116*f2 - 16) / k
+	}
+	// D50 white
+	return x * (0.3457 / 0.3585), y, z * ((1.0 - 0.3457 - 0.3585) / 0.3585)
+}
+
+func d50ToD65(x, y, z float64) (float64, float64, float64) {
+	return 0.955473421488075*x - 0.02309845494876471*y + 0.06325924320057072*z,
+		-0.0283697093338637*x + 1.0099953980813041*y + 0.021041441191917323*z,
+		0.012314014864481998*x - 0.020507649298898964*y + 1.330365926242124*z
+}
+
+func oklabToXYZ(L, a, b float64) (float64, float64, float64) {
+	l := L + 0.3963377773761749*a + 0.2158037573099136*b
+	m := L - 0.1055613458156586*a - 0.0638541728258133*b
+	s := L - 0.0894841775298119*a - 1.2914855480194092*b
+	l, m, s = l*l*l, m*m*m, s*s*s
+	return 1.2268798758459243*l - 0.5578149944602171*m + 0.2813910456659647*s,
+		-0.0405757452148008*l + 1.1122868032803170*m - 0.0717110580655164*s,
+		-0.0763729366746601*l - 0.4214933324022432*m + 1.5869240198367816*s
+}
+
+func xyzToSRGB(x, y, z float64) (float64, float64, float64) {
+	lr := (12831.0/3959)*x + (-329.0/214)*y + (-1974.0/3959)*z
+	lg := (-851781.0/878810)*x + (1648619.0/878810)*y + (36519.0/878810)*z
+	lb := (705.0/12673)*x + (-2585.0/12673)*y + (705.0/667)*z
+	gam := func(v float64) float64 {
+		sign := 1.0
+		if v < 0 {
+			sign, v = -1, -v
+		}
+		if v > 0.0031308 {
+			return sign * (1.055*math.Pow(v, 1/2.4) - 0.055)
+		}
+		return sign * 12.92 * v
+	}
+	return gam(lr), gam(lg), gam(lb)
+}
